@@ -198,5 +198,21 @@ func C02Union(ncases int, withNull int, small int) {
 	} else {
 		verifAssert("cpp-tagged-only-if-ambiguous", !disjoint)
 	}
+	if withNull == 1 && !cppSimplified {
+		// portability (C03): the Python writer renders the null case of a tagged nullable union as a bare null;
+		// the emitted C++ reader must take a null document as the null case before it looks for a tag
+		from := strings.Index(cpp, "static void from_json(")
+		it := strings.Index(cpp, "auto it = j.begin();")
+		guard := -1
+		if from >= 0 && it > from {
+			guard = strings.Index(cpp[from:it], "if (j.is_null()) {")
+		}
+		ok := guard >= 0
+		if ok {
+			body := cpp[from+guard : it]
+			ok = strings.Contains(body, "value = std::monostate{};") && strings.Contains(body, "return;")
+		}
+		verifAssert("cpp-tagged-nullable-union-reads-bare-null", ok)
+	}
 	verifReach("c02-union-end")
 }
